@@ -254,7 +254,7 @@ func (f *fakeStateMgr) GetDatabaseCfg(string) (models.Database, bool)          {
 type pendingResp struct {
 	resp *protoCommonV1.TaskResponse
 	from string
-	to   *fakeTaskMgr
+	to   query.TaskManager
 }
 
 type fakeStream struct {
@@ -294,8 +294,18 @@ func (n *Node) Query(db, sqlText string, lay Layout) (*commonmodels.ResultSet, e
 	}
 	root := models.StatelessNode{HostIP: "1.1.1.1", GRPCPort: 9000}
 	brokerNode := models.StatelessNode{HostIP: "1.1.1.2", GRPCPort: 9000}
-	rootMgr := &fakeTaskMgr{tasks: map[string]querycontext.TaskContext{}}
-	brokerMgr := &fakeTaskMgr{tasks: map[string]querycontext.TaskContext{}}
+	var rootMgr, brokerMgr query.TaskManager = &fakeTaskMgr{tasks: map[string]querycontext.TaskContext{}}, &fakeTaskMgr{tasks: map[string]querycontext.TaskContext{}}
+	if n.C.Plan.C("realmgr", 0) == 1 {
+		// lindb's own task manager on a real worker pool (as the broker runtime wires them): responses are handed to
+		// pool workers, which handle them concurrently
+		workers := 1 + n.C.Plan.C("mgrworkers", 1)
+		var stopRoot, stopBroker func()
+		rootMgr, stopRoot = query.VerifNewTaskManager("root-"+NewTag(n.C), workers, time.Minute)
+		brokerMgr, stopBroker = query.VerifNewTaskManager("broker-"+NewTag(n.C), workers, time.Minute)
+		defer stopRoot()
+		defer stopBroker()
+		sim.Probe("real-task-manager")
+	}
 	var deliver func(p *pendingResp)
 	processors := map[string]query.TaskProcessor{}
 	var leafTargets []*models.Target
@@ -309,7 +319,7 @@ func (n *Node) Query(db, sqlText string, lay Layout) (*commonmodels.ResultSet, e
 		me := ln.Indicator()
 		for _, recv := range []struct {
 			node string
-			mgr  *fakeTaskMgr
+			mgr  query.TaskManager
 		}{{root.Indicator(), rootMgr}, {brokerNode.Indicator(), brokerMgr}} {
 			recv := recv
 			fct.Register(recv.node, &fakeStream{send: func(r *protoCommonV1.TaskResponse) error {
